@@ -216,7 +216,7 @@ def r_index(F, res):
             else:
                 res.add([finding("R-INDEX", key, w, "a redeemer tagged %s takes its index from something other than the compiled body's `%s` collection (e.g. a count among the items that have redeemers): the ledger numbers every item of body.%s, so the redeemer points at another item as soon as one without redeemer sorts before it" % (tag, want, want))])
     res.count("Redeemer constructions", n)
-    res.floor("Redeemer constructions", n, 2)
+    res.floor("Redeemer constructions", n, 1)
 
 
 def _redeemers_root(F):
